@@ -247,3 +247,28 @@ func VerifC13LargeElements() {
 	verifAssert("C13.large.lossless", verifEqBytes(got, stream))
 	verifCover("C13.large.end")
 }
+
+// an element longer than 64 KiB: three-byte LEB128 length, fragment offsets beyond 16 bits
+func VerifC13LongElement() {
+	size := verifPick("size", []int{65540, 80010})
+	big := verifLongFrame(size, false)
+	t1 := verifU8("type1") & 0x0F
+	verifAssume(t1 != 1)
+	verifAssume(t1 != 2)
+	verifAssume(t1 != 8)
+	verifAssume(t1 != 15)
+	stream := []byte{t1<<3 | 0x02, uint8(size&0x7F) | 0x80, uint8(size>>7&0x7F) | 0x80, uint8(size >> 14)}
+	stream = append(stream, big...)
+	mtu := uint16(verifPick("mtu", []int{65535, 40000, 30011}))
+	payloads := (&AV1Payloader{}).Payload(mtu, stream)
+	dep := &AV1Depacketizer{}
+	var got []byte
+	for _, pl := range payloads {
+		verifAssert("C13.long.mtu", len(pl) <= int(mtu))
+		out, err := dep.Unmarshal(pl)
+		verifAssert("C13.long.depacketize-noerr", err == nil)
+		got = append(got, out...)
+	}
+	verifAssert("C13.long.lossless", verifEqBytes(got, stream))
+	verifCover("C13.long.end")
+}
